@@ -1,0 +1,11 @@
+//go:build !verif
+
+package frugal
+
+// verifYield is a no-op unless the package is built with the "verif" tag
+// (see verif_hooks_on.go). It marks schedule points that an external
+// verification harness may own.
+func verifYield(point string, opid uint64) {}
+
+// verifOpID is a no-op unless built with the "verif" tag.
+func verifOpID(ctx FContext) uint64 { return 0 }
